@@ -222,6 +222,13 @@ def run(ctx: Ctx) -> int:
             labels = [x.attr if isinstance(x, ast.Attribute) else x.value for x in names_]
             ok = bool(labels) and all("Safe" in l for l in labels)
             ctx.oblige("C01.a", ok, cd, f"{cd.name} derives from the safe yaml classes {labels}" if ok else f"{cd.name} derives from {labels}: not a Safe* class - values that are not plain yaml (tuples, enums) are written with python tags the loader rejects, or unsafe tags are accepted on load", fn=fn_)
+    # Namespace objects that reach the yaml dumper (class specs below two container levels, next to nulls) are written
+    # as mappings by a representer - registered on the Safe dumper class the library's dumper derives from
+    nsm = ctx.repo.mod("_namespace")
+    reps = [c for c in ast.walk(nsm.tree) if isinstance(c, ast.Call) and call_leaf(c) == "add_representer" and c.args and dotted(c.args[0]) == "Namespace"]
+    ok = bool(reps) and all(isinstance(c.func, ast.Attribute) and (dotted(c.func.value) or "").endswith("SafeDumper") for c in reps)
+    ctx.oblige("C01.a", ok, None, "the Namespace representer is registered on yaml.SafeDumper (the base of the library's dumper)" if ok else f"the Namespace representer is registered through `{ast.unparse(reps[0].func) if reps else '?'}`, not on the Safe dumper class: the library's dumper cannot write Namespace objects left inside containers (Dict[str, List[Cls]], List[Optional[Cls]]) - every yaml dump of such a configuration raises RepresenterError", site="_namespace:<module> :: add_representer(Namespace, ...)", construct="Namespace representer on SafeDumper", function="_namespace:<module>")
+
     # JSON text is recognised whatever whitespace surrounds it (files end with a newline)
     llod = ctx.func("_loaders_dumpers:load_list_or_dict")
     lp_ = llod.args.args[0].arg
